@@ -3,8 +3,14 @@
 to /repo's working tree, reverted afterwards) and write /verif/seeded/RESULTS.md + results.json."""
 import json,subprocess,os,re,glob,sys
 rows=[]
+only=set(sys.argv[1:])   # optional: re-run only these seeds, keep the stored rows of the others
+stored={}
+if only and os.path.exists('/verif/seeded/results.json'):
+    stored={r['seed']:r for r in json.load(open('/verif/seeded/results.json'))}
 for d in sorted(glob.glob('/verif/seeded/C*-*')):
     s=os.path.basename(d); prop=s.split('-')[0]
+    if only and s not in only and s in stored:
+        rows.append(stored[s]); continue
     meta=json.load(open(d+'/meta.json'))
     r=subprocess.run(['/verif/tools/trymutant.sh',d+'/patch.diff',prop],capture_output=True,text=True)
     out=r.stdout
